@@ -140,6 +140,16 @@ func c09Exec(o c09Op) (dig string) {
 			}
 		}
 		l.GetEightChar().SetSect(1)
+		// objects reached through stepping are new objects: configuring them must not reconfigure the one stepped from
+		l0 := mk()
+		own := digest1(l0.GetEightChar())
+		for _, n := range []int{0, 1, -1} {
+			l0.Next(n).GetEightChar().SetSect(1)
+			l0.Next(n).Next(-n).GetEightChar().SetSect(1)
+		}
+		if now := digest1(l0.GetEightChar()); now != own {
+			return "LEAK: SetSect on the chart of a Lunar returned by Next(n) changed the chart of the Lunar it was stepped from: " + diffDigests(own, now)
+		}
 		if h := HolidayUtil.GetHolidayByYmd(a[0], a[1], a[2]); h != nil {
 			h.SetName("x")
 			h.SetWork(!h.IsWork())
@@ -238,6 +248,9 @@ var c09ObjCalls = func() []objCall {
 		{"accessors(Time)", func(l *calendar.Lunar) string { return digest1(l.GetTime()) }},
 		{"accessors(Foto)", func(l *calendar.Lunar) string { return digest1(l.GetFoto()) }},
 		{"accessors(Tao)", func(l *calendar.Lunar) string { return digest1(l.GetTao()) }},
+		{"GetJieQiTable", func(l *calendar.Lunar) string { return render(reflect.ValueOf(l.GetJieQiTable()), 0, nil) }},
+		{"GetJieQiList", func(l *calendar.Lunar) string { return render(reflect.ValueOf(l.GetJieQiList()), 0, nil) }},
+		{"Next(0)", func(l *calendar.Lunar) string { return digest1(l.Next(0)) }},
 		{"Next(1)", func(l *calendar.Lunar) string { return l.Next(1).String() }},
 		{"Next(-40)", func(l *calendar.Lunar) string { return l.Next(-40).String() }},
 		{"GetNextJieByWholeDay(true)", func(l *calendar.Lunar) string { return fmt.Sprint(l.GetNextJieByWholeDay(true), l.GetNextJieByWholeDay(true).GetSolar().ToYmdHms()) }},
@@ -352,12 +365,24 @@ func mapDigest(m map[string]string) string {
 	return s
 }
 
+// c09Day: a seeded day of year y, biased towards the first days of January and the last of December (several
+// accessors take rarely used branches there).
+func c09Day(rng *rand.Rand, y int) (int, int, int) {
+	switch rng.Intn(10) {
+	case 0, 1:
+		return y, 1, 1 + rng.Intn(10)
+	case 2:
+		return y, 12, 20 + rng.Intn(12)
+	}
+	return randDayIn(rng, y, y)
+}
+
 var c09Years = []int{2019, 2020, 2021, 2033, 2034, 1582, 15, 16, 9998, 1900}
 
 // c09Ops builds the seeded multiset of descriptors.
 func c09Ops(seed int64, n int) (ops []c09Op, hostile []c09Op) {
 	rng := rand.New(rand.NewSource(seed*7919 + 11))
-	day := func(y int) (int, int, int) { return randDayIn(rng, y, y) }
+	day := func(y int) (int, int, int) { return c09Day(rng, y) }
 	for len(ops) < n {
 		y := c09Years[rng.Intn(len(c09Years))]
 		_, m, d := day(y)
@@ -563,7 +588,7 @@ func c09ChildMain(args []string) int {
 		res.Goroutines = G
 		rng := rand.New(rand.NewSource(seed*53 + int64(idx)))
 		y := c09Years[rng.Intn(len(c09Years))]
-		_, m, d := randDayIn(rng, y, y)
+		_, m, d := c09Day(rng, y)
 		hh, mi, ss := rng.Intn(24), rng.Intn(60), rng.Intn(60)
 		objs := make([]*calendar.Lunar, G)
 		for g := range objs {
@@ -609,7 +634,7 @@ func c09ChildMain(args []string) int {
 		res.Goroutines = G
 		rng := rand.New(rand.NewSource(seed*31 + int64(idx)))
 		y := c09Years[rng.Intn(len(c09Years))]
-		_, m, d := randDayIn(rng, y, y)
+		_, m, d := c09Day(rng, y)
 		hh, mi, ss := rng.Intn(24), rng.Intn(60), rng.Intn(60)
 		gender, wstart := rng.Intn(2), rng.Intn(7)
 		// two identical object sets: A is walked sequentially for the reference, B is first touched by the
